@@ -1,10 +1,367 @@
 /-
-  Proofs/C14Slices.lean — helper lemmas for Props/C14_Slices.lean.
+  Proofs/C14Slices.lean — helper lemmas for Props/C14_Slices.lean: `range` arithmetic (membership test of
+  `rangeLen`, ranges of bit offsets = scaled ranges of item indices), "keep the elements whose index satisfies P",
+  and the loops of `getSlice` / `setSlice` / `delSlice` / `reverse` on buffers in block form.
 -/
 import BitstringModel.Model.C14
 import BitstringModel.Proofs.C14
+import BitstringModel.Proofs.C14Items
 
 namespace BM.C14
 open BM
+
+variable {V : Type}
+
+/-! ### `range` arithmetic -/
+
+/-- `k < len(range(a, b, st))` iff the `k`-th element is still before `b` (positive step). -/
+theorem lt_rangeLen_pos (a b st : Int) (hst : 0 < st) (k : Nat) :
+    k < Py.rangeLen a b st ↔ a + (k : Int) * st < b := by
+  unfold Py.rangeLen
+  simp only [gt_iff_lt, hst, if_true]
+  by_cases hab : a < b
+  · simp only [hab, if_true]
+    have h0 : 0 ≤ (b - a - 1) / st := Int.ediv_nonneg (by omega) (by omega)
+    have key : (k : Int) ≤ (b - a - 1) / st ↔ (k : Int) * st ≤ b - a - 1 := Int.le_ediv_iff_mul_le hst
+    constructor
+    · intro h
+      have : (k : Int) ≤ (b - a - 1) / st := by omega
+      have := key.mp this
+      omega
+    · intro h
+      have : (k : Int) ≤ (b - a - 1) / st := key.mpr (by omega)
+      omega
+  · simp only [hab, if_false]
+    constructor
+    · intro h; omega
+    · intro h
+      have : 0 ≤ (k : Int) * st := Int.mul_nonneg (by omega) (by omega)
+      omega
+
+theorem rangeLen_neg_eq (a b st : Int) (hst : st < 0) : Py.rangeLen a b st = Py.rangeLen (-a) (-b) (-st) := by
+  unfold Py.rangeLen
+  have h1 : ¬ st > 0 := by omega
+  have h2 : -st > 0 := by omega
+  simp only [h1, h2, if_false, if_true]
+  by_cases hab : b < a
+  · have : -a < -b := by omega
+    simp only [hab, this, if_true]
+    have e : -b - -a - 1 = a - b - 1 := by ring
+    rw [e]
+  · have : ¬ (-a < -b) := by omega
+    simp only [hab, this, if_false]
+
+theorem lt_rangeLen_neg (a b st : Int) (hst : st < 0) (k : Nat) :
+    k < Py.rangeLen a b st ↔ b < a + (k : Int) * st := by
+  rw [rangeLen_neg_eq a b st hst, lt_rangeLen_pos (-a) (-b) (-st) (by omega) k]
+  have e : -a + (k : Int) * -st = -(a + (k : Int) * st) := by ring
+  rw [e]
+  omega
+
+theorem nat_eq_of_lt_iff (m n : Nat) (h : ∀ k : Nat, k < m ↔ k < n) : m = n := by
+  have h1 := h m
+  have h2 := h n
+  omega
+
+/-- A range of bit offsets is the range of item indices, scaled. -/
+theorem rangeLen_scaled (s e st L : Int) (hL : 0 < L) (hst : st ≠ 0) :
+    Py.rangeLen (s * L) (e * L) (st * L) = Py.rangeLen s e st := by
+  apply nat_eq_of_lt_iff
+  intro k
+  by_cases hp : 0 < st
+  · have hp' : 0 < st * L := Int.mul_pos hp hL
+    rw [lt_rangeLen_pos _ _ _ hp', lt_rangeLen_pos _ _ _ hp]
+    have e1 : s * L + (k : Int) * (st * L) = (s + (k : Int) * st) * L := by ring
+    rw [e1]
+    exact Int.mul_lt_mul_right hL
+  · have hn : st < 0 := by omega
+    have hn' : st * L < 0 := Int.mul_neg_of_neg_of_pos hn hL
+    rw [lt_rangeLen_neg _ _ _ hn', lt_rangeLen_neg _ _ _ hn]
+    have e1 : s * L + (k : Int) * (st * L) = (s + (k : Int) * st) * L := by ring
+    rw [e1]
+    exact Int.mul_lt_mul_right hL
+
+theorem rangeList_scaled (s e st L : Int) (hL : 0 < L) (hst : st ≠ 0) :
+    Py.rangeList (s * L) (e * L) (st * L) = (Py.rangeList s e st).map (· * L) := by
+  unfold Py.rangeList
+  rw [rangeLen_scaled s e st L hL hst, List.map_map]
+  apply List.map_congr_left
+  intro k _
+  simp only [Function.comp]
+  ring
+
+theorem rangeList_length (a b st : Int) : (Py.rangeList a b st).length = Py.rangeLen a b st := by
+  simp [Py.rangeList]
+
+/-- Every index a slice visits is a valid item index. -/
+theorem rangeList_slice_mem (start stop : Option Int) (st : Int) (hst : st ≠ 0) (n : Nat) (i : Int)
+    (hi : i ∈ Py.rangeList (Py.sliceIndices start stop st n).1 (Py.sliceIndices start stop st n).2.1 st) :
+    0 ≤ i ∧ i < n := by
+  unfold Py.rangeList at hi
+  simp only [List.mem_map, List.mem_range] at hi
+  obtain ⟨k, hk, rfl⟩ := hi
+  exact C01.sliceIndices_bounds start stop st hst n k hk
+
+theorem sliceIndices_snd (start stop : Option Int) (st : Int) (n : Nat) :
+    (Py.sliceIndices start stop st n).2.2 = st := by
+  unfold Py.sliceIndices; rfl
+
+/-- For a positive step both slice bounds are in `[0, n]`. -/
+theorem sliceIndices_pos_range (start stop : Option Int) (st : Int) (hst : 0 < st) (n : Nat) :
+    0 ≤ (Py.sliceIndices start stop st n).1 ∧ (Py.sliceIndices start stop st n).1 ≤ n ∧
+    0 ≤ (Py.sliceIndices start stop st n).2.1 ∧ (Py.sliceIndices start stop st n).2.1 ≤ n := by
+  have h : ¬ st < 0 := by omega
+  unfold Py.sliceIndices
+  cases start <;> cases stop <;> simp only [h, if_false] <;> (try split) <;> (try split) <;> omega
+
+/-! ### a[start:stop:step] -/
+
+/-- The elements of `l` at the (valid) indices `idx`, in that order — what `Py.getSlice` returns. -/
+def sel {α} (l : List α) (idx : List Int) : List α := idx.filterMap fun i => l[i.toNat]?
+
+theorem sel_cons {α} (l : List α) (i : Int) (idx : List Int) (hi : 0 ≤ i ∧ i < l.length) :
+    sel l (i :: idx) = l[i.toNat]'(by omega) :: sel l idx := by
+  have h : i.toNat < l.length := by omega
+  simp [sel, List.filterMap_cons, List.getElem?_eq_getElem h]
+
+theorem sel_mem {α} (l : List α) (idx : List Int) : ∀ x ∈ sel l idx, x ∈ l := by
+  intro x hx
+  simp only [sel, List.mem_filterMap] at hx
+  obtain ⟨i, _, hi⟩ := hx
+  exact List.mem_of_getElem? hi
+
+theorem sel_map {α β} (f : α → β) (l : List α) (idx : List Int) : sel (l.map f) idx = (sel l idx).map f := by
+  simp only [sel, List.map_filterMap]
+  apply List.filterMap_congr
+  intro i _
+  simp [List.getElem?_map]
+
+theorem pyGetSlice_eq {α} (l : List α) (start stop : Option Int) (st : Int) (hst : st ≠ 0) :
+    Py.getSlice l start stop (some st) = .ok (sel l (Py.rangeList (Py.sliceIndices start stop st l.length).1
+      (Py.sliceIndices start stop st l.length).2.1 st)) := by
+  unfold Py.getSlice
+  simp only [Option.getD_some, hst, if_false]
+  rfl
+
+theorem pyGetSlice_map {α β} (f : α → β) (l : List α) (start stop step : Option Int) :
+    Py.getSlice (l.map f) start stop step = (Py.getSlice l start stop step).map (List.map f) := by
+  by_cases h0 : step.getD 1 = 0
+  · unfold Py.getSlice; simp [h0, Except.map]
+  · have e : ∀ (m : List α), Py.getSlice m start stop step = Py.getSlice m start stop (some (step.getD 1)) := by
+      intro m; unfold Py.getSlice; simp
+    have e' : Py.getSlice (l.map f) start stop step = Py.getSlice (l.map f) start stop (some (step.getD 1)) := by
+      unfold Py.getSlice; simp
+    rw [e', e l, pyGetSlice_eq _ _ _ _ h0, pyGetSlice_eq _ _ _ _ h0, List.length_map, sel_map]
+    rfl
+
+/-- The loop `for s in range(...): d.append(self.data[s:s+L])` over the bit offsets of the items `idx`. -/
+theorem getSlice_fold (L : Nat) (bs : List Bits) (t : Bits) (hbs : ∀ b ∈ bs, b.length = L)
+    (idx : List Int) (hidx : ∀ i ∈ idx, 0 ≤ i ∧ i < bs.length) (acc : Bits) :
+    (idx.map (· * (L : Int))).foldl (fun acc p => acc ++ bslice (bs.flatten ++ t) (some p) (some (p + (L : Int)))) acc
+      = acc ++ (sel bs idx).flatten := by
+  induction idx generalizing acc with
+  | nil => simp [sel]
+  | cons i idx ih =>
+    have hi := hidx i (by simp)
+    have hk : i.toNat < bs.length := by omega
+    rw [List.map_cons, List.foldl_cons, ih (fun j hj => hidx j (by simp [hj])), sel_cons bs i idx hi]
+    have hlen : (bs.flatten ++ t).length = bs.length * L + t.length := by
+      rw [List.length_append, blocks_flatten_length L bs hbs]
+    have hk' : (i.toNat + 1) * L ≤ bs.length * L := Nat.mul_le_mul_right _ hk
+    have e0 : (i.toNat + 1) * L = i.toNat * L + L := by ring
+    have e1 : i * (L : Int) = ((i.toNat * L : Nat) : Int) := by
+      push_cast; rw [Int.toNat_of_nonneg hi.1]
+    have e2 : i * (L : Int) + (L : Int) = ((i.toNat * L + L : Nat) : Int) := by
+      push_cast; rw [Int.toNat_of_nonneg hi.1]
+    rw [e2, e1, bslice_nat _ _ _ (by omega) (by omega)]
+    have : i.toNat * L + L - i.toNat * L = L := by omega
+    rw [this, block_at L bs t hbs i.toNat hk]
+    simp
+
+theorem pyGetSlice_getD {α} (l : List α) (start stop step : Option Int) :
+    Py.getSlice l start stop step = Py.getSlice l start stop (some (step.getD 1)) := by
+  unfold Py.getSlice; simp
+
+/-- The step-1 branch: one bit slice. -/
+theorem getSlice_step1_blocks (L : Nat) (bs : List Bits) (t : Bits) (hbs : ∀ b ∈ bs, b.length = L)
+    (s e : Int) (hs : 0 ≤ s ∧ s ≤ bs.length) (he : 0 ≤ e ∧ e ≤ bs.length) :
+    bslice (bs.flatten ++ t) (some (s * (L : Int))) (some (e * (L : Int)))
+      = ((bs.drop s.toNat).take (e - s).toNat).flatten := by
+  have hlen : (bs.flatten ++ t).length = bs.length * L + t.length := by
+    rw [List.length_append, blocks_flatten_length L bs hbs]
+  have e1 : s * (L : Int) = ((s.toNat * L : Nat) : Int) := by
+    push_cast; rw [Int.toNat_of_nonneg hs.1]
+  have e2 : e * (L : Int) = ((e.toNat * L : Nat) : Int) := by
+    push_cast; rw [Int.toNat_of_nonneg he.1]
+  have hs' : s.toNat * L ≤ bs.length * L := Nat.mul_le_mul_right _ (by omega)
+  have he' : e.toNat * L ≤ bs.length * L := Nat.mul_le_mul_right _ (by omega)
+  rw [e1, e2, bslice_nat _ _ _ (by omega) (by omega)]
+  rw [drop_blocks L bs t hbs s.toNat (by omega)]
+  have e3 : e.toNat * L - s.toNat * L = (e - s).toNat * L := by
+    rw [← Nat.sub_mul]
+    congr 1
+    omega
+  rw [e3]
+  have hdl : ∀ b ∈ bs.drop s.toNat, b.length = L := fun b hb => hbs b (List.mem_of_mem_drop hb)
+  by_cases hle : (e - s).toNat ≤ (bs.drop s.toNat).length
+  · exact take_blocks L (bs.drop s.toNat) t hdl _ hle
+  · exfalso
+    simp only [List.length_drop] at hle
+    omega
+
+theorem pyGetSlice_mem {α} (l : List α) (start stop step : Option Int) (r : List α)
+    (h : Py.getSlice l start stop step = .ok r) : ∀ x ∈ r, x ∈ l := by
+  rw [pyGetSlice_getD] at h
+  by_cases h0 : step.getD 1 = 0
+  · rw [h0] at h; simp [Py.getSlice] at h
+  · rw [pyGetSlice_eq _ _ _ _ h0] at h
+    injection h with h
+    subst h
+    exact sel_mem l _
+
+/-! ### a[start:stop:step] = values -/
+
+theorem bsetSlice_nat' (d new : Bits) (a b : Nat) (ha : a ≤ d.length) (hb : b ≤ d.length) :
+    bsetSlice d (a : Int) (b : Int) new = d.take a ++ new ++ d.drop (max a b) := by
+  unfold bsetSlice
+  rw [sliceIndices_nat a b d.length ha hb]
+  simp only [Int.toNat_natCast]
+  congr 2
+  omega
+
+theorem bdelSlice_nat' (d : Bits) (a b : Nat) (ha : a ≤ d.length) (hb : b ≤ d.length) :
+    bdelSlice d (a : Int) (b : Int) = d.take a ++ d.drop (max a b) := by
+  unfold bdelSlice
+  rw [sliceIndices_nat a b d.length ha hb]
+  simp only [Int.toNat_natCast]
+  congr 2
+  omega
+
+/-- The `overwrite` loop of an extended-slice assignment, on a buffer in block form. -/
+theorem overwriteLoop_blocks (c : Codec V) (hu : c.mult = 1) (hL : 0 < c.L) (hwf : c.WF) (t : Bits)
+    (idx : List Int) (vals : List V) (bl : List Bits) (hf : List.Forall₂ (fun v b => c.enc v = .ok b) vals bl)
+    (bs : List Bits) (hbs : ∀ b ∈ bs, b.length = c.L) (hidx : ∀ i ∈ idx, 0 ≤ i ∧ i < bs.length) :
+    overwriteLoop c (idx.zip vals) (bs.flatten ++ t)
+      = ⟨((idx.zip bl).foldl (fun acc p => acc.set p.1.toNat p.2) bs).flatten ++ t, .ok ()⟩ ∧
+    (∀ b ∈ (idx.zip bl).foldl (fun acc p => acc.set p.1.toNat p.2) bs, b.length = c.L) := by
+  induction idx generalizing vals bl bs with
+  | nil => simp [overwriteLoop]; exact hbs
+  | cons i idx ih =>
+    cases hf with
+    | nil => simp [overwriteLoop]; exact hbs
+    | @cons v b vs bl' hb hf' =>
+      have hi := hidx i (by simp)
+      have hk : i.toNat < bs.length := by omega
+      obtain ⟨hce, hbl, _⟩ := createElement_ok c hu hwf v b hb
+      have e1 : i * (c.L : Int) = ((c.L * i.toNat : Nat) : Int) := by
+        push_cast; rw [Int.toNat_of_nonneg hi.1]; ring
+      have hbs' := set_blocks_length c.L bs b hbs hbl i.toNat
+      have hidx' : ∀ j ∈ idx, 0 ≤ j ∧ j < (bs.set i.toNat b).length := by
+        intro j hj
+        rw [List.length_set]
+        exact hidx j (by simp [hj])
+      obtain ⟨h1, h2⟩ := ih vs bl' hf' (bs.set i.toNat b) hbs' hidx'
+      simp only [List.zip_cons_cons, List.foldl_cons]
+      refine ⟨?_, h2⟩
+      unfold overwriteLoop
+      simp only [hce]
+      rw [e1, overwrite_block c.L hL bs t b hbs hbl i.toNat hk]
+      exact h1
+
+theorem foldl_set_map {α β} (f : α → β) (idx : List Int) (l : List α) (vs : List α) :
+    (idx.zip (vs.map f)).foldl (fun acc p => acc.set p.1.toNat p.2) (l.map f)
+      = ((idx.zip vs).foldl (fun acc p => acc.set p.1.toNat p.2) l).map f := by
+  induction idx generalizing l vs with
+  | nil => simp
+  | cons i idx ih =>
+    cases vs with
+    | nil => simp
+    | cons v vs =>
+      simp only [List.map_cons, List.zip_cons_cons, List.foldl_cons]
+      rw [← List.map_set]
+      exact ih (l.set i.toNat v) vs
+
+/-- `l[a:b:c] = vs` commutes with mapping a function over the list and the values. -/
+theorem pySetSlice_map {α β} (f : α → β) (l : List α) (start stop step : Option Int) (vs : List α) :
+    PyL.setSlice (l.map f) start stop step (vs.map f) = (PyL.setSlice l start stop step vs).map (List.map f) := by
+  unfold PyL.setSlice
+  simp only [List.length_map]
+  by_cases h0 : step.getD 1 = 0
+  · simp [h0, Except.map]
+  · simp only [h0, if_false]
+    by_cases h1 : (Py.sliceIndices start stop (step.getD 1) l.length).2.2 = 1
+    · simp only [h1, if_true, Except.map, List.map_append, List.map_take, List.map_drop]
+    · simp only [h1, if_false]
+      by_cases hl : vs.length ≠ (Py.rangeList (Py.sliceIndices start stop (step.getD 1) l.length).1
+          (Py.sliceIndices start stop (step.getD 1) l.length).2.1 (Py.sliceIndices start stop (step.getD 1) l.length).2.2).length
+      · rw [if_pos hl, if_pos hl]; rfl
+      · rw [if_neg hl, if_neg hl, foldl_set_map]; rfl
+
+theorem max_mul_right (a b L : Nat) : max (a * L) (b * L) = (max a b) * L := by
+  rcases Nat.le_total a b with h | h
+  · rw [Nat.max_eq_right h, Nat.max_eq_right (Nat.mul_le_mul_right L h)]
+  · rw [Nat.max_eq_left h, Nat.max_eq_left (Nat.mul_le_mul_right L h)]
+
+/-- Slice assignment on a buffer in block form = list slice assignment on the blocks. -/
+theorem setSlice_blocks (c : Codec V) (hu : c.mult = 1) (hL : 0 < c.L) (hwf : c.WF) (bs : List Bits) (t : Bits)
+    (hbs : ∀ b ∈ bs, b.length = c.L) (ht : t.length < c.L) (start stop step : Option Int) (vals : List V) (bl : List Bits)
+    (hf : List.Forall₂ (fun v b => c.enc v = .ok b) vals bl) (hbl : ∀ b ∈ bl, b.length = c.L)
+    (hca : createAll c vals = .ok bl.flatten) :
+    (setSlice c (bs.flatten ++ t) start stop step vals =
+      match PyL.setSlice bs start stop step bl with
+      | .ok bs' => ⟨bs'.flatten ++ t, .ok ()⟩
+      | .error e => ⟨bs.flatten ++ t, .error e⟩) ∧
+    (∀ bs', PyL.setSlice bs start stop step bl = .ok bs' → ∀ b ∈ bs', b.length = c.L) := by
+  have hlen := (view_of_blocks c hu hL bs t hbs ht).2.2.2
+  have hdl : (bs.flatten ++ t).length = bs.length * c.L + t.length := by
+    rw [List.length_append, blocks_flatten_length c.L bs hbs]
+  unfold setSlice PyL.setSlice
+  rw [hlen]
+  generalize hk : step.getD 1 = k
+  by_cases h0 : k = 0
+  · subst h0
+    simp
+  · simp only [h0, if_false]
+    rw [sliceIndices_snd]
+    by_cases h1 : k = 1
+    · subst h1
+      simp only [if_true, hca]
+      have hr := sliceIndices_pos_range start stop 1 (by omega) bs.length
+      generalize (Py.sliceIndices start stop 1 bs.length).1 = s at hr ⊢
+      generalize (Py.sliceIndices start stop 1 bs.length).2.1 = e at hr ⊢
+      have e1 : s * (c.L : Int) = ((s.toNat * c.L : Nat) : Int) := by
+        push_cast; rw [Int.toNat_of_nonneg hr.1]
+      have e2 : e * (c.L : Int) = ((e.toNat * c.L : Nat) : Int) := by
+        push_cast; rw [Int.toNat_of_nonneg hr.2.2.1]
+      have hs' : s.toNat * c.L ≤ bs.length * c.L := Nat.mul_le_mul_right _ (by omega)
+      have he' : e.toNat * c.L ≤ bs.length * c.L := Nat.mul_le_mul_right _ (by omega)
+      have hmax : (max s e).toNat = max s.toNat e.toNat := by omega
+      rw [e1, e2, bsetSlice_nat' _ _ _ _ (by omega) (by omega), max_mul_right]
+      rw [take_blocks c.L bs t hbs s.toNat (by omega), drop_blocks c.L bs t hbs (max s.toNat e.toNat) (by omega), hmax]
+      refine ⟨by simp, ?_⟩
+      intro bs' hbs'
+      injection hbs' with hbs'
+      subst hbs'
+      intro b hb
+      simp only [List.mem_append] at hb
+      rcases hb with (hb | hb) | hb
+      · exact hbs b (List.mem_of_mem_take hb)
+      · exact hbl b hb
+      · exact hbs b (List.mem_of_mem_drop hb)
+    · simp only [h1, if_false]
+      rw [rangeList_length, ← hf.length_eq]
+      by_cases hl : vals.length = Py.rangeLen (Py.sliceIndices start stop k bs.length).1 (Py.sliceIndices start stop k bs.length).2.1 k
+      · have hl' : ¬ (vals.length ≠ Py.rangeLen (Py.sliceIndices start stop k bs.length).1 (Py.sliceIndices start stop k bs.length).2.1 k) :=
+          not_not.mpr hl
+        rw [if_pos hl, if_neg hl']
+        obtain ⟨h2, h3⟩ := overwriteLoop_blocks c hu hL hwf t _ vals bl hf bs hbs
+          (fun i hi => rangeList_slice_mem start stop k h0 bs.length i hi)
+        refine ⟨h2, ?_⟩
+        intro bs' hbs'
+        injection hbs' with hbs'
+        subst hbs'
+        exact h3
+      · rw [if_neg hl, if_pos hl]
+        exact ⟨rfl, fun bs' hbs' => by cases hbs'⟩
 
 end BM.C14
